@@ -7,6 +7,7 @@ import Hpbf.BcWf
 import Hpbf.Cert
 import Hpbf.Cli
 import Hpbf.Window
+import Hpbf.OptArith
 
 namespace Hpbf
 namespace Driver3
@@ -247,6 +248,30 @@ def handle (line : String) : String :=
   let toks := (line.splitOn " ").filter (· ≠ "")
   match toks with
   | "cli" :: rest => (cliRun rest).getD "bad-request"
+  | "opt" :: kind :: ws :: args =>
+    -- recompute an arithmetic decision of the optimiser from its recorded arguments
+    (do
+      let w ← ws.toNat?
+      let bv (s : String) : Option (BitVec w) := s.toNat?.map (BitVec.ofNat w)
+      let ex (s : String) : Option (Expr w) := (pExpr w).run s.toList |>.bind (fun r => if r.2.isEmpty then some r.1 else none)
+      match kind, args with
+      | "trip", [m, inc] => do
+        let m ← bv m; let inc ← bv inc
+        some (match OptArith.tripCount m inc with | some n => toString n.toNat | none => "inf")
+      | "tripinv", [inc] => do
+        let inc ← bv inc
+        some (match OptArith.tripInv inc with | some n => toString n.toNat | none => "none")
+      | "powmul", [mul, c] => do
+        let mul ← bv mul; let c ← bv c
+        some (toString (Cell.wrappingPow mul c).toNat)
+      | "geom", [mul, c] => do
+        let mul ← bv mul; let c ← bv c
+        some (toString (Cell.wrappingPow mul c).toNat ++ " " ++ toString (OptArith.geomSum mul c).toNat)
+      | "tri", [e, ini, inc, bef] => do
+        let e ← ex e; let ini ← ex ini; let inc ← ex inc; let bef ← ex bef
+        let r := OptArith.triStep e ini inc bef
+        some (toString r.1 ++ " " ++ Driver.encodeExpr r.2)
+      | _, _ => none).getD "bad-request"
   | ["const", x] => x
   | ["limchk", ws, sin, sout, hex, verdict, tr] =>
     -- the request carries the verdict of the canonical semantics computed earlier; re-derive and confirm
@@ -285,6 +310,15 @@ def handle (line : String) : String :=
       let w ← ws.toNat?; let n ← nr.toNat?
       let p ← decodeBc w bc
       some (BcWf.diagnose p n)).getD "bad-request"
+  | "irexec" :: ws :: fs :: sin :: sout :: rest =>
+    -- run the IR interpreter model on IR given as text
+    (do
+      let w ← ws.toNat?; let fuel ← fs.toNat?; let env ← Driver.decodeEnv sin sout
+      let b ← decodeBlock w (" ".intercalate rest)
+      some (match Ir.run b false 0 fuel env with
+        | .done c | .stopped c => "ok " ++ Driver.encodeTrace c.st.trace
+        | .interrupted c => "interrupted " ++ Driver.encodeTrace c.st.trace
+        | .outOfFuel c => "fuel " ++ Driver.encodeTrace c.st.trace)).getD "bad-request"
   | "irecho" :: ws :: rest =>
     -- decode/encode round trip of the IR text (sanity check of the decoder)
     match ws.toNat? with
